@@ -1215,9 +1215,19 @@ func runC14(c *Ctx) {
 					}
 					hit := &Term{Op: "extract", Args: []*Term{lk}, N: 1}
 					edge := ""
+					muIdx := -1
+					for i := range p.Events {
+						if &p.Events[i] == mu {
+							muIdx = i
+						}
+					}
 					for _, cd := range p.Conds {
 						t, pol := stripNot(cd.T, cd.Pol)
 						if t.Key() == hit.Key() {
+							edge = map[bool]string{true: "hit", false: "miss"}[pol]
+						}
+						// the library's own membership helper, asked BEFORE the update (decided by its own row here)
+						if t.Op == "call" && t.Sym == "maps.HasKey" && len(t.Args) == 2 && stripConv(t.Args[0]).Key() == theMap.Key() && t.Args[1].Key() == key.Key() && cd.NEv <= muIdx {
 							edge = map[bool]string{true: "hit", false: "miss"}[pol]
 						}
 					}
@@ -1375,7 +1385,40 @@ func runC14(c *Ctx) {
 			ok, why = false, "expected one loop"
 		} else {
 			it := c14IterOf(loops[0])
-			if it == nil || it.kind != "map" || !isParam(it.over, 0) || len(it.li.Phis) != 1 {
+			if it != nil && it.kind == "map" && isParam(it.over, 0) && len(it.li.Phis) == 1 && isIntegerType(it.li.Phis[0].Type()) {
+				// the pre-sized form: result := make([]T, len(m)); result[i] = entry; i++ with i from 0 - a range over a
+				// map yields exactly len(m) entries, so every slot is written once and none is left over
+				cnt := it.li.Phis[0]
+				lv := it.li.LV[cnt]
+				if in := it.li.Init[cnt]; in == nil || !in.IsConst("0") {
+					ok, why = false, "the write position does not start at 0"
+				}
+				var res *Term
+				for _, p := range it.li.Back {
+					writes := 0
+					for i := p.LoopAt[it.li.Hdr]; i < len(p.Events); i++ {
+						e := &p.Events[i]
+						if e.Kind != "store" {
+							continue
+						}
+						good := e.Addr.Op == "iaddr" && e.Addr.Args[0].Op == "mkslice" && isLenOf(e.Addr.Args[0].Args[0], paramOf(fi, 0)) && e.Addr.Args[1].Key() == lv.Key() &&
+							((row.what == "key" && it.isKey(e.Val)) || (row.what == "value" && it.isElem(e.Val)))
+						if !good {
+							ok, why = false, "an iteration does not store the entry's "+row.what+" at the write position of a slice of len(m)"
+						}
+						res = e.Addr.Args[0]
+						writes++
+					}
+					if nx := p.Next[cnt]; writes != 1 || nx == nil || !ToPoly(nx).Equal(ToPoly(lv).Add(polyConst(1), 1)) || len(p.Conds) != 1 {
+						ok, why = false, "not exactly one store and one step per entry"
+					}
+				}
+				for _, p := range it.li.Exit {
+					if p.End == EndReturn && (res == nil || len(p.Rets) != 1 || p.Rets[0].Key() != res.Key()) {
+						ok, why = false, "does not return the filled slice"
+					}
+				}
+			} else if it == nil || it.kind != "map" || !isParam(it.over, 0) || len(it.li.Phis) != 1 {
 				ok, why = false, "does not range over the map with one accumulator"
 			} else {
 				acc := it.li.Phis[0]
